@@ -128,7 +128,7 @@ func (g *G) SubText(kind string, flags uint, htype int) []byte {
 		m := g.Msg(MsgOpts{Request: -1, MaxHdrs: 1})
 		s = m.FLine + m.FTerm
 		if g.R.Chance(1, 6) {
-			s = g.R.Pick([]string{"A b C", "SIP/2.0 200", "SIP/2.0 2x0 OK", "INVITE  sip:a SIP/2.0", "INVITE\tsip:a SIP/2.0", "SIP/2.0  200 OK", "I u V ", "SIP/2.0 200 "}) + g.Term()
+			s = g.R.Pick([]string{"A b C", "SIP/2.0 200", "SIP/2.0 2x0 OK", "SIP/2.0 20: OK", "SIP/2.0 18A Ringing", "SIP/2.0 40; x", "SIP/2.0 99z", "SIP/2.0 /00 OK", "SIP/2.0 2:0 OK", "sip/2.0 20~ OK", "INVITE  sip:a SIP/2.0", "INVITE\tsip:a SIP/2.0", "SIP/2.0  200 OK", "I u V ", "SIP/2.0 200 "}) + g.Term()
 		}
 		s += g.R.Pick([]string{"", "V", "Via: x\r\n", "\r\n", "\n"})
 	case "hdrline":
@@ -177,6 +177,10 @@ func (g *G) SubText(kind string, flags uint, htype int) []byte {
 		s = g.LWS(false) + g.CallIDVal() + g.WS(1) + g.Continuation()
 	case "uint", "clen", "expires":
 		s = g.LWS(false) + g.Digits() + g.WS(1) + g.Continuation()
+		if g.R.Chance(1, 12) {
+			// two digit groups separated by LWS (invalid: must be rejected however it is chunked)
+			s = g.LWS(false) + g.SmallNum(99999) + g.LWS(true) + g.SmallNum(99999) + g.Continuation()
+		}
 	case "tokparam", "uriparams", "urihdrs":
 		f := flags
 		if kind == "urihdrs" {
